@@ -2,6 +2,8 @@ SPECIFICATION Spec
 CONSTANTS
   NProc = 2
   MaxLen = 2
+  MaxRuns = 1
   SharedCache = FALSE
+  ReuseInterp = FALSE
   Rich = FALSE
 CHECK_DEADLOCK FALSE
